@@ -484,6 +484,7 @@ pub fn run_scenario(sc: &Value) -> Vec<Value> {
                     "Write" => {
                         let data = bytes_of(&op["data"]);
                         let split = op.get("split").and_then(|x| x.as_u64()).unwrap_or(0) as usize;
+                        let vec_io = op.get("vec").and_then(|x| x.as_bool()).unwrap_or(false);
                         let mut k = 0usize;
                         let mut calls = 0u64;
                         let m_xacc;
@@ -495,7 +496,17 @@ pub fn run_scenario(sc: &Value) -> Vec<Value> {
                             while k < data.len() {
                                 let end = if split > 0 { (k + split).min(data.len()) } else { data.len() };
                                 calls += 1;
-                                let n = w.write(&data[k..end]).map_err(|e| e.to_string())?;
+                                // (op.vec: the same bytes offered as three slices through write_vectored - whatever an
+                                //  implementation does with vectored writes must agree with write)
+                                let n = if vec_io {
+                                    let piece = &data[k..end];
+                                    let (a, rest) = piece.split_at(piece.len() / 3);
+                                    let (b, c) = rest.split_at(rest.len() / 2);
+                                    w.write_vectored(&[std::io::IoSlice::new(a), std::io::IoSlice::new(b), std::io::IoSlice::new(c)])
+                                } else {
+                                    w.write(&data[k..end])
+                                }
+                                .map_err(|e| e.to_string())?;
                                 if n == 0 {
                                     return Err("write returned 0".into());
                                 }
@@ -522,9 +533,30 @@ pub fn run_scenario(sc: &Value) -> Vec<Value> {
                     }
                     "WriteExtra" => {
                         let (bytes, toks) = extra_bytes(&op["recs"]);
+                        let vec_io = op.get("vec").and_then(|x| x.as_bool()).unwrap_or(false);
                         let r = catch_unwind(AssertUnwindSafe(|| {
                             if bytes.is_empty() {
                                 w.write(&bytes).map(|_| ())
+                            } else if vec_io {
+                                // the records offered as slices through write_vectored until everything is taken
+                                let mut k = 0usize;
+                                let mut res = Ok(());
+                                while k < bytes.len() {
+                                    let piece = &bytes[k..];
+                                    let (a, b) = piece.split_at(piece.len().min(4));
+                                    match w.write_vectored(&[std::io::IoSlice::new(a), std::io::IoSlice::new(b)]) {
+                                        Ok(0) => {
+                                            res = Err(std::io::Error::new(std::io::ErrorKind::WriteZero, "write_vectored returned 0"));
+                                            break;
+                                        }
+                                        Ok(n) => k += n,
+                                        Err(e) => {
+                                            res = Err(e);
+                                            break;
+                                        }
+                                    }
+                                }
+                                res
                             } else {
                                 w.write_all(&bytes)
                             }
@@ -568,6 +600,11 @@ pub fn run_scenario(sc: &Value) -> Vec<Value> {
                         let nm = name_string(&op["name"]);
                         let (fo, oabs) = opts_of(op);
                         let tgt = if name == "AddSymlink" { name_string(&op["target"]) } else { String::new() };
+                        if let Some(pw) = op.get("enc") {
+                            if !pw.is_null() {
+                                pws.push(bytes_of(pw));
+                            }
+                        }
                         let (nmc, tgc) = (nm.clone(), tgt.clone());
                         let r = catch_unwind(AssertUnwindSafe(|| {
                             if name == "AddDir" { w.add_directory(nmc, fo) } else { w.add_symlink(nmc, tgc, fo) }
